@@ -211,6 +211,34 @@ func c02(c *Ctx) {
 		}
 		r.Check(okArg, "C02.N1", name, construct+" names the folded entry", pos, why, "the removal does not name exactly the entry folded in this iteration (a wider range drops un-folded entries)")
 	}
+	// N1b: once an entry has been decoded as a message and found not newer than the horizon, the iteration folds it:
+	// no path from the false edge of the horizon test back to the loop head avoids the fold (a `continue` for some
+	// message types would leave those entries in the log copy forever and out of the snapshot state)
+	{
+		var hv []*cfgx.Edge
+		for _, v := range g.V {
+			for _, e := range v.Succ {
+				if e.Cond != nil && e.Tag == nil && !e.Val && isHorizon(e.Cond) {
+					hv = append(hv, e)
+				}
+				if e.Cond != nil && e.Tag == nil && e.Val {
+					if u, ok := ast.Unparen(e.Cond).(*ast.UnaryExpr); ok && u.Op == token.NOT && isHorizon(u.X) {
+						hv = append(hv, e)
+					}
+				}
+			}
+		}
+		headV := g.VertexOf(loop.Cond)
+		if loop.Cond == nil {
+			headV = bodyStart
+		}
+		for _, e := range hv {
+			skip := g.Reach(e.To, func(v int) bool { return v == foldV }, nil)
+			r.Check(!skip[headV] && !skip[bodyStart] || e.To == foldV, "C02.N1", name, "every entry below the horizon is folded", c.P.Pos(e.Cond.Pos()), "every path from the horizon test's pass edge to the next iteration passes the fold",
+				"some entries that are not newer than the horizon are skipped without being folded into the snapshot state (for example by a `continue` for one message type): their effect — for a message of death the tombstone and the session's duplicate-detection marker — is missing from the snapshot, and the entry stays in the log copy")
+		}
+		r.Check(len(hv) >= 1, "C02.N1", name, "horizon test found in the loop", c.P.Pos(loop.Pos()), "found", "no horizon test in the compaction loop")
+	}
 	r.Floor("C02.N1", 8)
 
 	// N2 fresh index
@@ -238,6 +266,56 @@ func c02(c *Ctx) {
 		}
 		return true
 	})
+	// N2d: the clean-up of older recorded states happens before the new state is recorded: no delete(lastSnapshotState, …)
+	// is reachable after the store, and none is deferred (a deferred clean-up runs after the store and removes the entry
+	// just recorded, so the next snapshot starts from a stale base state)
+	{
+		var storeVs []int
+		var storeNode ast.Node
+		for _, v := range g.Nodes() {
+			if as, ok := v.Node.(*ast.AssignStmt); ok && len(as.Lhs) == 1 {
+				if ie, ok := ast.Unparen(as.Lhs[0]).(*ast.IndexExpr); ok {
+					if se, ok := ast.Unparen(ie.X).(*ast.SelectorExpr); ok && astx.FieldSel(info, se) == lss {
+						storeVs = append(storeVs, v.ID)
+						storeNode = as
+					}
+				}
+			}
+		}
+		bad := ""
+		ast.Inspect(snap.Body(), func(n ast.Node) bool {
+			call, ok := n.(*ast.CallExpr)
+			if !ok || astx.Builtin(info, call) != "delete" || len(call.Args) != 2 {
+				return true
+			}
+			se, ok := ast.Unparen(call.Args[0]).(*ast.SelectorExpr)
+			if !ok || astx.FieldSel(info, se) != lss {
+				return true
+			}
+			dv := g.VertexOf(call)
+			// inside a deferred function literal?
+			inDefer := false
+			ast.Inspect(snap.Body(), func(m ast.Node) bool {
+				if ds, ok := m.(*ast.DeferStmt); ok && ds.Pos() <= call.Pos() && call.End() <= ds.End() {
+					inDefer = true
+				}
+				return true
+			})
+			if inDefer {
+				bad = "the clean-up is deferred"
+			}
+			for _, sv := range storeVs {
+				if dv >= 0 && g.Reach(sv, nil, nil)[dv] {
+					bad = "a clean-up delete is reachable after the store"
+				}
+			}
+			return true
+		})
+		if storeNode != nil {
+			r.Check(bad == "", "C02.N2", name, "older recorded states are dropped before the new one is recorded", c.P.Pos(storeNode.Pos()), "no delete(lastSnapshotState, …) after the store, none deferred",
+				"entries of lastSnapshotState are deleted after the new state was recorded ("+bad+"): the state just recorded is removed and the next compaction starts from a stale base state, losing what this one folded")
+		}
+	}
 	for _, cl := range compositeLitsOf(info, snap.Body(), load.ModPath, "robustSnapshot") {
 		if v := litField(cl, "firstIndex"); v != nil {
 			uses = append(uses, idxUse{"robustSnapshot.firstIndex", v, cl})
@@ -394,6 +472,42 @@ func c02(c *Ctx) {
 					}
 					return true
 				})
+			}
+			// the sweep interval is added on every path: a statement mentioning the constant dominates the horizon's definition
+			// (or the definition mentions it itself)
+			{
+				mentionsK := func(n ast.Node) bool {
+					found := false
+					ast.Inspect(n, func(m ast.Node) bool {
+						if id, ok := m.(*ast.Ident); ok {
+							if k, ok := info.Uses[id].(*types.Const); ok && k.Name() == "expireSessionsInterval" {
+								found = true
+							}
+						}
+						return true
+					})
+					return found
+				}
+				okAll := false
+				for _, v := range g.Nodes() {
+					as, isAs := v.Node.(*ast.AssignStmt)
+					if !isAs {
+						continue
+					}
+					for _, l := range as.Lhs {
+						if id, ok := l.(*ast.Ident); ok && astx.Obj(info, id) == ceObj {
+							// this is a definition of the horizon
+							if mentionsK(as) || g.DominatedBy(v.ID, func(x *cfgx.Vertex) bool {
+								a2, ok := x.Node.(*ast.AssignStmt)
+								return ok && x.ID != v.ID && mentionsK(a2)
+							}) {
+								okAll = true
+							}
+						}
+					}
+				}
+				r.Check(okAll, "C02.N6", name, "the sweep interval is added on every path", c.P.Pos(snap.Node().Pos()), "an assignment adding expireSessionsInterval dominates the horizon's definition",
+					"expireSessionsInterval is added to the expiration only on some paths (e.g. only in the fallback for an unset SessionExpiration): with a configured expiration, entries younger than expiration + sweep interval are folded and dropped while their session can still be resumed")
 			}
 			r.Check(neg, "C02.N6", name, "horizon lies in the past", c.P.Pos(snap.Node().Pos()), "start.Add(-exp)", "the horizon is not compaction start MINUS the expiration")
 		}
